@@ -6,10 +6,8 @@
 
 use super::common::*;
 use super::CheckDef;
-use crate::cg::*;
 use crate::ctx::{panic_class, Ctx, Tier};
 use crate::program::*;
-use crate::refmodel::*;
 use crate::rng::Rng;
 
 pub static DEF: CheckDef = CheckDef {
@@ -188,11 +186,20 @@ pub fn gen(ctx: &Ctx, fam: &str, k: u64, r: &mut Rng) -> Program {
         "dag-exact" => {
             let mut cfg = GenCfg::exact();
             cfg.max_ops = if ctx.tier == Tier::Thorough { 12 } else { 10 };
+            // a quarter of the programs live in rank 4 (small dims), so that results of every rank 1..4 occur
+            if r.chance(1, 4) {
+                cfg.max_rank = 4;
+                cfg.max_dim = 2;
+            }
             gen_program(r, &cfg)
         }
         "dag-smooth" => {
             let mut cfg = GenCfg::smooth();
             cfg.max_ops = 8;
+            if r.chance(1, 4) {
+                cfg.max_rank = 4;
+                cfg.max_dim = 2;
+            }
             gen_program(r, &cfg)
         }
         "readme" => readme_program(r),
